@@ -225,6 +225,20 @@ SPECS["C15"] = node_spec(
     "DESIGN.md section 7, C15",
     "Theorems: Props/C15.v over M/Raft.v, M/RaftLog.v, M/MemStorage.v. Tie: pointwise differential, projection log+conf+progress+replication/response traffic.")
 
+SPECS["C17"] = node_spec(
+    "C17", ["transfer", "hard", "timers", "result", "msgs.other", "msgs.vote"], "transfer",
+    "Props/C17.v (33 pinned theorems, every node state and every input): a MsgTimeoutNow is queued only by a leader handling MsgAppendResponse or MsgTransferLeader, at most one per step, addressed to the pending transfer target whose matched index equals the leader's last index (every Raft step and every RawNode entry point); while a transfer is pending proposals and conf-change proposals return ProposalDropped with the state unchanged; the transfer timer: the tick at which election_elapsed reaches election_timeout clears the transfer, a leader step leaves (target, elapsed) alone, clears it, or starts a new transfer with elapsed 0, and any interleaving of RawNode calls containing enough ticks ends with no transfer pending (from every state reached from RawNode::new); every reset and the removal of the target from the voters clears it; requests naming an unknown node, a learner, the current target or the leader itself are exact no-ops / cancel only; the forced vote skips pre-vote, carries CAMPAIGN_TRANSFER and bypasses the check-quorum lease; a follower obeys MsgTimeoutNow only if promotable.",
+    "the cluster-level clause (after a completed transfer in a healthy cluster the target leads a higher term holding every committed entry while the old leader follows) is not proved (safety part follows from C02/C03 at P level; liveness is not a theorem); expiry under an unbounded stream of new transfer requests is excluded by hypothesis.",
+    "DESIGN.md section 7, C17",
+    "Theorems: Props/C17.v over M/Raft.v, M/RawNode.v. Tie: pointwise differential, projection transfer+hard+timers+results+vote/other traffic.")
+
+SPECS["C13"] = node_spec(
+    "C13", ["progress", "msgs.repl", "uncommitted", "result", "log"], "flow_control",
+    "Props/C13.v (35 pinned theorems, every node state and input): nothing is sent to a paused peer (snapshot outstanding, probe paused, window full), with the state unchanged; the exact shape of what maybe_send_append queues (one message; snapshot or append anchored at (next_idx-1, its term), entries as read from the log, commit = committed) and its effect on the progress (probe pauses after an entry-carrying append and stays paused on every later call; replicate consumes exactly one window slot, requires the window not full); entries of an emitted append are contiguous from the anchor, are the log's own entries, and respect max_size_per_msg unless a single entry (batching off); batching rewrites only the first queued append for the peer, keeps its anchor and contiguity (the defect found here, merging into an empty append anchored elsewhere, was fixed in /repo); the in-flight window invariant count <= cap is preserved by every Progress operation, by the whole Raft API and by every RawNode entry point, and no panic comes from the window; heartbeats carry commit = min(matched, committed); the uncommitted-size rule is characterised exactly (refused iff limited, non-empty payload, something outstanding and the sum exceeds the maximum); a proposal is dropped on a leader exactly for the four listed reasons; every queued append/heartbeat carries m_commit <= committed (invariant of the whole API).",
+    "that every queued MsgAppend stays a slice of the leader's current log across later steps needs leader-append-only (proved at P level, C05) and is a hypothesis here; cap = max_inflight_msgs at all times and the identification of window elements with unacknowledged messages are not proved; the size clause is stated with batching off, as in the property.",
+    "DESIGN.md section 7, C13",
+    "Theorems: Props/C13.v over M/Raft.v, M/Progress.v, M/Inflights.v, M/RaftLog.v. Tie: pointwise differential, projection progress+replication traffic+uncommitted+results+log.")
+
 SPECS["C09"] = node_spec(
     "C09", ["conf", "hard", "log", "result"], "conf_change",
     "Props/C09.v (46 pinned theorems, every node state and input): the proposal filter is characterised completely (a conf-change entry is kept iff nothing is pending and it fits the joint state, otherwise replaced by an empty normal entry; a decode error drops the proposal; at most one survives a proposal); the leader invariant 'every conf-change entry above applied is at or below pending_conf_index' is established by become_leader and preserved by every function of the Raft and RawNode models; no node campaigns (timeout, MsgHup, MsgTimeoutNow) while has_unapplied_conf_changes answers true, and a (pre-)candidate that learns a committed conf change through vote traffic steps down; a non-promotable node never campaigns by tick or MsgTimeoutNow and promotable = voter after every configuration switch; a rejected apply_conf_change leaves the node untouched and a successful one yields exactly the ConfChange model's configuration (C12); auto-leave is proposed once.",
